@@ -1829,14 +1829,15 @@ def result_view(r):
         v.update({
             "name": obs(lambda: r.name), "lnL": obs(lambda: float(r.lnL)), "nfp": obs(lambda: int(r.nfp)),
             "DLC_uniqueQ": obs(lambda: [r.DLC, r.unique_Q]), "num_evaluations": obs(lambda: r.num_evaluations),
-            "evaluation_limit": obs(lambda: r.evaluation_limit),      # (observed separately: one that raises must not hide the other)
+            # (model_result keeps its evaluation limit only among the constructor arguments it re-exports)
+            "evaluation_limit": obs(lambda: r._construction_kwargs.get("evaluation_limit")),
             "elapsed": obs(lambda: r.elapsed_time), "lf_names": obs(lambda: [x.name for x in (r.lf.values() if isinstance(r.lf, dict) else [r.lf])]),
             "tree": obs(lambda: r.tree.get_newick(with_distances=True) if not isinstance(r.tree, dict) else {str(k): t.get_newick(with_distances=True) for k, t in r.tree.items()}),
             "alignment": obs(lambda: dict(r.alignment.to_dict()) if not isinstance(r.alignment, dict) else {str(k): dict(a.to_dict()) for k, a in r.alignment.items()}),
         })
     if tn == "hypothesis_result":
         v.update({"name": obs(lambda: r.name), "LR_df_p": obs(lambda: [float(r.LR), int(r.df), float(r.pvalue)]),
-                  "null_alt": obs(lambda: [r.null.name, [a.name for a in r.alt]]),
+                  "null": obs(lambda: r.null.name), "alt": obs(lambda: r.alt.name),       # (alt is one model_result: the best alternative)
                   "best": obs(lambda: r.get_best_model().name), "selected": obs(lambda: [m.name for m in r.select_models()])})
     if tn == "model_collection_result":
         v.update({"name": obs(lambda: r.name), "best": obs(lambda: r.get_best_model().name)})
